@@ -139,13 +139,18 @@ def make_device(d, lines=None):
     if kind == 'intc':
         return Intc(size, lines)
     dev = RecRAM(size) if kind == 'rec' else RAM(size)
+    fill_device(dev, d)
+    return dev
+
+
+def fill_device(dev, d):
+    size = d['end'] - d['begin']
     for off, hx in (d.get('data') or {}).items():
         b = bytes.fromhex(hx)
         off = int(off)
         dev.memory_array[off:off + len(b)] = b
     if 'fill' in d:
         dev.memory_array[:] = bytes.fromhex(d['fill']) * (size // max(1, len(d['fill']) // 2))
-    return dev
 
 
 def new_arm(core_spec, lines=None):
@@ -153,7 +158,18 @@ def new_arm(core_spec, lines=None):
     from . import solo as _solo
     _solo.constructed[0] += 1
     arm = ArmV6(config_path(core_spec.get('config')))
+    taken = set()
     for d in core_spec.get('devices', []):
+        if d.get('in_config'):
+            # declared in the configuration file's memory_list: the library has built the controller itself; only the contents are loaded
+            for i, mc in enumerate(arm.mem.memories):
+                if i not in taken and mc.beginning == d['begin'] and mc.end == d['end']:
+                    taken.add(i)
+                    fill_device(mc.mem, d)
+                    break
+            else:
+                raise RuntimeError('memory_list entry [%#x, %#x) was not constructed by the library' % (d['begin'], d['end']))
+            continue
         arm.mem.memories.append(MemoryController(make_device(d, lines), d['begin'], d['end']))
     if core_spec.get('reset', True):
         arm.take_reset()
@@ -261,6 +277,25 @@ def sys_state(arm, skip=('_R', 'cpsr', 'changed_registers')):
     return d
 
 
+# Plain (int / bool) attributes of Registers that are architectural state on the pinned tree.  Register objects and lists of them are always
+# architectural; any OTHER plain attribute (it_state_restored today, whatever bookkeeping a later change adds) is per-step bookkeeping: a
+# snapshot 'rebuilt from architectural state' does not carry it and the architectural comparison does not look at it
+ARCH_PLAIN = frozenset('''actlr cbor ccr cdsr clear_dmaer contextidr cr0 cr1 ctr dclr dfar dmacidr dmacnr dmacr dmacsr dmaesar dmaiear dmaisar dmaisir dmaispr
+dmaisqr dmaisrr dmauar dtcm_nsacr dtcmrr elr_hyp event_register hdfar hmair0 hmair1 httbr hvbar iclr id_afr0 id_dfr0 id_isar0 id_isar1 id_isar2 id_isar3
+id_isar4 id_isar5 id_mmfr0 id_mmfr1 id_mmfr2 id_mmfr3 id_pfr0 ifar ifsr isr itcm_nsacr mair0 mair1 mvbar par ppmrr spsr_abt spsr_fiq spsr_hyp spsr_irq spsr_mon
+spsr_svc spsr_und start_dmaer stop_dmaer svcr_edrc svcr_fic svcr_ic svcr_rc svcsmr tcmsr tcmtr teehbr tlblr tlbtr tpidrprw tpidruro tpidrurw ttbr0 ttbr0_64
+ttbr1 ttbr1_64 vttbr'''.split())
+
+
+def is_bookkeeping(r, name):
+    v = getattr(r, name)
+    if name == 'changed_registers':
+        return True
+    if isinstance(v, AbstractRegister) or (isinstance(v, list) and name != 'changed_registers') or name == '_R':
+        return False
+    return name not in ARCH_PLAIN
+
+
 def full_state(arm, hidden=True):
     """complete state as a flat dict; hidden=True adds the per-step bookkeeping attributes"""
     r = arm.registers
@@ -268,7 +303,8 @@ def full_state(arm, hidden=True):
     d['n_regs'] = len(r._R)
     d['cpsr'] = r.cpsr.value
     for k, v in sys_state(arm).items():
-        d['sys.' + k] = v
+        if hidden or not is_bookkeeping(r, k):
+            d['sys.' + k] = v
     d['wfe'] = bool(arm.is_wait_for_event)
     d['wfi'] = bool(arm.is_wait_for_interrupt)
     for i, mc in enumerate(arm.mem.memories):
@@ -288,14 +324,16 @@ def digest_of(obj):
     return hashlib.blake2b(repr(obj).encode(), digest_size=8).hexdigest()
 
 
-def dump_state(arm):
-    """a 'regs' spec that load_state() accepts, holding the complete architectural state"""
+def dump_state(arm, arch_only=False):
+    """a 'regs' spec that load_state() accepts, holding the complete architectural state (arch_only: and nothing else, see ARCH_PLAIN)"""
     r = arm.registers
     st = {'R': regs_dict(arm), 'cpsr': r.cpsr.value,
           'spsr': {m: getattr(r, 'spsr_' + m) for m in SPSR_MODES}, 'elr_hyp': r.elr_hyp,
           'event_register': bool(r.event_register), 'sys': {}}
     for k in sorted(vars(r)):
         if k in ('_R', 'cpsr', 'changed_registers', 'event_register', 'elr_hyp') or k.startswith('spsr_'):
+            continue
+        if arch_only and is_bookkeeping(r, k):
             continue
         v = get_sys(r, k)
         st['sys'][k] = v
@@ -322,6 +360,8 @@ def dump_devices(arm, template):
     out = []
     for d, mc in zip(template, arm.mem.memories):
         nd = {'kind': d.get('kind', 'ram'), 'begin': d['begin'], 'end': d['end']}
+        if d.get('in_config'):
+            nd['in_config'] = True
         m = mc.mem
         if hasattr(m, 'memory_array'):
             data = {}
@@ -336,7 +376,7 @@ def dump_devices(arm, template):
     return out
 
 
-def snapshot_core_spec(arm, spec):
+def snapshot_core_spec(arm, spec, arch_only=False):
     """a core spec that rebuilds exactly the current architectural state and memory of 'arm'"""
-    return {'config': spec.get('config'), 'devices': dump_devices(arm, spec.get('devices', [])), 'regs': dump_state(arm),
+    return {'config': spec.get('config'), 'devices': dump_devices(arm, spec.get('devices', [])), 'regs': dump_state(arm, arch_only),
             'reset': False, 'done_pc': spec.get('done_pc')}
